@@ -567,6 +567,15 @@ def build_tag(r):
         finally:
             _sys.displayhook = old
         return t
+    if how == "iadd_each":
+        # every child arrives through its own `+=` on the child list (a bare string operand for plain text)
+        t = mk(*attr_args)
+        for k_ in kids:
+            if type(k_) is str:
+                t.children += k_
+            else:
+                t.children += [k_]
+        return t
     if how == "remove_twin":
         # a sibling that merely STARTS like an earlier element (same name and attributes, one more child) is added next to it
         # and taken out again by value: the by-value list operations address the element that is equal, nothing else
@@ -643,7 +652,7 @@ def build_tag(r):
 
 
 HOWS = ["ctor", "ctor", "ctor_mixed", "nested", "append", "append_many", "extend", "insert", "taglist", "toggle_ws", "reassign_children",
-        "slice_children", "iadd", "insert_neg_list", "extend_iter", "iadd_gen", "extend_map", "used_as_context", "setitem_last", "after_rejected_extend", "sum_with_empty_is_new", "attrs_from_template", "remove_twin", "class_added_later"]
+        "slice_children", "iadd", "insert_neg_list", "extend_iter", "iadd_gen", "extend_map", "used_as_context", "setitem_last", "after_rejected_extend", "sum_with_empty_is_new", "attrs_from_template", "remove_twin", "class_added_later", "iadd_each"]
 
 
 # ------------------------------------------------------------------ recipe helpers
